@@ -182,8 +182,11 @@ class Run(object):
                 return r
         return None
 
+    skipview = ()
+
     def step(self, e):
         a = e["a"]
+        self.skipview = e.get("skipview", ())
         try:
             if a == "Attach":
                 for r, vals in e["store"].items():
@@ -238,6 +241,8 @@ class Run(object):
                 name, typ, conc = self.opt[e["o"]]
                 if e["o"].startswith("s"):
                     val = py_value(typ, conc[e["v"][0]])
+                elif e.get("bare"):
+                    val = str(conc[e["v"][0]])          # a bare string given to a list-valued (port) option
                 else:
                     val = [conc[t] for t in e["v"]]
                 spelled = name if (len(e["v"]) % 2) else name.lower()     # names are matched case-insensitively
@@ -317,7 +322,7 @@ class Run(object):
                 else:
                     view[r] = [wire_value(typ, v)]
                     shape[r] = "ok" if type(v) is PYTYPE[typ] else "bad:%s" % type(v).__name__
-        return dict(wrote=wrote, view=view, shape=shape, pending=pending, exc=self.exc)
+        return dict(wrote=wrote, view=view, shape=shape, pending=pending, exc=self.exc, skipview=list(self.skipview))
 
 
 def replay(script, pick):
